@@ -31,7 +31,7 @@ def ts_role(f, d):
         return 'START'
     if 'Node::mtime_' in s or mentions_call(d, 'Node::mtime'):
         vb = var_base(d)
-        if vb in ('most_recent_input',):
+        if vb in ('most_recent_input',) or any(x.get('k') == 'var' and x['n'] in mri_vars(f) for x in walk(d) if isinstance(x, dict)):
             return 'IN'
         if vb in ('output', 'o', 'out_node'):
             return 'OUT'
@@ -46,17 +46,67 @@ def ts_role(f, d):
             return 'OUT'
         if 'Edge::inputs_' in so:
             return 'IN'
+        # a cursor / "best so far" iterator: follow every definition of the variables it is rooted in
+        so = ' '.join(_def_closure(f, d))
+        if 'Edge::outputs_' in so and 'Edge::inputs_' not in so:
+            return 'OUT'
+        if 'Edge::inputs_' in so and 'Edge::outputs_' not in so:
+            return 'IN'
         return 'NODE'
     if d.get('k') == 'var':
         os_ = origins(f, d)
         if os_ and all(isinstance(strip(o), dict) and strip(o).get('k') == 'call' and
                        strip(o).get('name') == 'DiskInterface::Stat' for o in os_):
             return 'NOW'
-        if d['n'].split('#')[0] in ('record_mtime',):
+        if d['n'].split('#')[0].split('@')[0] in ('record_mtime',):
             return 'REC'
-        if d['n'].split('#')[0] in ('mtime', 'deps_mtime', 'new_mtime'):
+        if d['n'].split('#')[0].split('@')[0] in ('mtime', 'deps_mtime', 'new_mtime'):
             return 'NOW' if any(mentions_call(o, 'DiskInterface::Stat') for o in os_) else 'TS'
     return None
+
+
+def _def_closure(f, d, limit=12):
+    """Texts of everything the variables in d are (transitively) defined from: declarations with initialiser and assignments."""
+    seen, out, todo = set(), [], [x['n'] for x in walk(d) if isinstance(x, dict) and x.get('k') == 'var']
+    while todo and len(seen) < limit:
+        v = todo.pop()
+        if v in seen:
+            continue
+        seen.add(v)
+        for e in f.events():
+            src = None
+            if e['k'] == 'decl' and e['n'] == v and e.get('init') is not None:
+                src = e['init']
+            elif e['k'] == 'asg' and e.get('op') == '=' and isinstance(strip(e['l']), dict) and strip(e['l']).get('k') == 'var' and strip(e['l'])['n'] == v:
+                src = e.get('r')
+            if src is None:
+                continue
+            out.append(dstr(src))
+            todo += [x['n'] for x in walk(src) if isinstance(x, dict) and x.get('k') == 'var' and x['n'] not in seen]
+    return out
+
+
+def mri_vars(f):
+    """The names under which `f` keeps its running maximum of the input timestamps: most_recent_input itself, and a
+    "best so far" cursor it is read from (`m = best != end ? *best : NULL` after a std::max_element-style loop)."""
+    out = {'most_recent_input'}
+    for e in f.events():
+        src = None
+        if e['k'] == 'decl' and e['n'].split('#')[0].split('@')[0] == 'most_recent_input':
+            src = e.get('init')
+        elif e['k'] == 'asg' and mentions_var(e['l'], 'most_recent_input') and strip(e['l']).get('k') == 'var':
+            src = e.get('r')
+        for x in walk(src):
+            if isinstance(x, dict) and x.get('k') == 'var' and x['n'].split('#')[0].split('@')[0] != 'most_recent_input':
+                v = x['n']
+                if any(a['k'] == 'asg' and a.get('op') == '=' and isinstance(strip(a['l']), dict) and strip(a['l']).get('k') == 'var' and
+                       strip(a['l'])['n'] == v for a in f.events('asg')):
+                    out.add(v)
+    return out
+
+
+def mentions_mri(f, d):
+    return any(mentions_var(d, v) or any(isinstance(x, dict) and x.get('k') == 'var' and x['n'] == v for x in walk(d)) for v in mri_vars(f))
 
 
 def ts_comparisons(f):
@@ -138,16 +188,17 @@ def effect_returns(value):
     return eff
 
 
-def effect_assigns(varname, rhs_pred):
-    """TRUE side assigns varname from something satisfying rhs_pred before anything else
-    decides."""
+def effect_assigns(varname, rhs_pred, also=None):
+    """TRUE side assigns varname (or one of the names also(f) gives) from something satisfying rhs_pred before anything
+    else decides."""
     def eff(f, bid, s):
         if s is None:
             return False, 'no successor'
+        names = {varname} | (set(also(f)) if also else set())
         for e in f.blocks[s]['ev']:
             if e['k'] == 'asg' and e['op'] == '=' and isinstance(strip(e['l']), dict) and \
-                    strip(e['l']).get('k') == 'var' and strip(e['l'])['n'].split('#')[0] == varname:
-                return bool(rhs_pred(e.get('r'))), '%s = %s' % (varname, dstr(e.get('r')))
+                    strip(e['l']).get('k') == 'var' and (strip(e['l'])['n'].split('#')[0].split('@')[0] in names or strip(e['l'])['n'] in names):
+                return bool(rhs_pred(e.get('r'))), '%s = %s' % (strip(e['l'])['n'], dstr(e.get('r')))
         return False, 'no assignment to %s on the true side' % varname
     return eff
 
